@@ -1148,7 +1148,7 @@ class VM:
             ]
             if key_str in array_methods:
                 return self._make_array_method(obj, key_str)
-            return obj.get(key_str)
+            # any other name: an ordinary property lookup (below), accessors included
 
         if isinstance(obj, JSRegExp):
             # RegExp methods and properties
@@ -2447,8 +2447,9 @@ class VM:
                     raise JSTypeError(f"Cannot set property '{key_str}' on array")
             except ValueError:
                 pass  # Not a number, allow as string property
-            obj.set(key_str, value)
-        elif isinstance(obj, JSObject):
+            # a string-named property of an array is an ordinary property (below)
+
+        if isinstance(obj, JSObject):
             # The nearest property of that name decides: a setter runs with the
             # receiver as this, an accessor without setter refuses the write,
             # a data property (or none) makes an own data property of the receiver
